@@ -179,6 +179,10 @@ def parse_func(mod, hdr, body):
             cur = (m.group(1), []); f.blocks.append(cur); continue
         if cur is None:
             cur = (str(len(args)), []); f.blocks.append(cur)
+        while j < len(body) and re.match(r'^\s+(cleanup|catch |filter )', body[j]):   # landingpad clauses
+            j += 1
+        while j < len(body) and re.match(r'^\s+to label ', body[j]):   # invoke ... \n   to label %a unwind label %b
+            ln += ' ' + body[j].strip(); j += 1
         if ln.strip().startswith('switch') and ln.rstrip().endswith('['):
             while not body[j].strip().startswith(']'): ln += ' ' + body[j]; j += 1
             ln += ' ]'; j += 1
@@ -577,7 +581,8 @@ def emit_function(E, f):
                     a = ', '.join(x[1] for x in args if x)
                     e = '%s(%s)' % (cal, a)
                     if raw == 'vf_assert_at':
-                        ln_ = re.search(r'(\d+)ULL', args[1][1]).group(1)
+                        m_ = re.fullmatch(r'\(\(uint32_t\)(\d+)ULL\)', args[1][1])
+                        ln_ = m_.group(1) if m_ else 'merged'   # clang may merge two assertion sites into one call
                         body.append('__CPROVER_assert(%s, "harness:%s");' % (args[0][1], ln_)); continue
                     if raw == 'vf_witness':
                         body.append('__CPROVER_assert(0, "WITNESS");'); continue
@@ -591,7 +596,7 @@ def emit_function(E, f):
                 else: body.append('%s = %s;' % (D(rt), e))
                 if op == 'invoke':
                     p.expect('to'); p.expect('label'); l = p.next()[1]
-                    body.append(s.edge(bname, l[1:], labels, phis_of=lambda: phis))
+                    body.append(('EDGE', bname, l[1:]))
             elif op == 'ret':
                 t = p.type()
                 if t.k == 'void': body.append('return;')
@@ -682,7 +687,7 @@ def main():
     if '--models' in sys.argv: models = [x for x in sys.argv[sys.argv.index('--models') + 1].split(',') if x]
     mod = parse_module(text)
     E = Emit(mod, cuts); E.redirect = redirect
-    done = {}; work = list(entries); order = []
+    done = {}; work = list(entries); order = []; callgraph = {}
     while work:
         n = work.pop()
         if n in done: continue
@@ -691,6 +696,7 @@ def main():
         E.need = []
         hdr, code = emit_function(E, mod.funcs[n])
         done[n] = (hdr, code); order.append(n)
+        callgraph[n] = set(E.need)
         work.extend(E.need)
     print('#include "vf_rt.h"')
     print('\n'.join(E.typedefs)); E.typedefs = []
@@ -778,6 +784,24 @@ def main():
     print('\n'.join(E.typedefs)); E.typedefs = []
     print('\n'.join(stubs))
     for mf in models: print('#include "%s"' % mf)
+    # recursive functions (members of a call-graph cycle): CBMC needs an explicit recursion bound for them
+    sys.setrecursionlimit(100000)
+    idx = {}; low = {}; onst = set(); st = []; rec = []; cnt = [0]
+    def scc(v):
+        idx[v] = low[v] = cnt[0]; cnt[0] += 1; st.append(v); onst.add(v)
+        for w in callgraph.get(v, ()):
+            if w not in callgraph: continue
+            if w not in idx: scc(w); low[v] = min(low[v], low[w])
+            elif w in onst: low[v] = min(low[v], idx[w])
+        if low[v] == idx[v]:
+            comp = []
+            while True:
+                w = st.pop(); onst.discard(w); comp.append(w)
+                if w == v: break
+            if len(comp) > 1 or v in callgraph.get(v, ()): rec.extend(comp)
+    for v in list(callgraph):
+        if v not in idx: scc(v)
+    meta['recursive'] = [fname(r) for r in rec]
     if metaf: json.dump(meta, open(metaf, 'w'), indent=1)
     print('\n'.join(E.typedefs))
     print('\n'.join(gdefs))
